@@ -278,6 +278,21 @@ def run(unit, em):
         fn, ws = parse_words
         kw = sorted({w for w in ws if re.fullmatch(r'[A-Z][a-z]+', w)})
         em.info(fn, 'FMT-reader', 'keywords=' + ','.join(kw) + ';arrow=' + ('->' if '->' in ws else '') + ';lp=' + ('(' if '(' in ws else '') + ';rp=' + (')' if ')' in ws else ''))
+    # NUM: numeric tokens are written with the type they are read with (a rank of -1 written through an unsigned type
+    # comes out as 18446744073709551615, which FromString<int> rejects)
+    for fn in unit.functions:
+        if fn.body is None:
+            continue
+        sh = fn.q.split('::')[-1]
+        if fn.q.endswith('TimbukSerializer::Serialize'):
+            ts = sorted({unit.ty(c['args'][0]).replace('const ', '').replace('&', '').strip() for c in fn.calls()
+                         if (c.get('q') or '').endswith('Convert::ToString') and c.get('args')})
+            if ts:
+                em.info(fn, 'NUM-writer', 'types=' + ','.join(ts))
+        if 'timbuk_parser-nobison.cc' in fn.file:
+            ts = sorted({unit.ty(c).replace('const ', '').strip() for c in fn.calls() if (c.get('q') or '').endswith('Convert::FromString')})
+            if ts:
+                em.info(fn, 'NUM-reader', 'types=' + ','.join(ts))
     # symbolic table: both functions are in sym_var_asgn.cc
     rd, wr = {}, {}
     rfn = wfn = None
@@ -347,4 +362,18 @@ def finalize(records, em_factory):
     else:
         b2.update(kind='violation', construct='Timbuk rule punctuation', obligation='FMT', detail='writer uses %s, reader expects %s' % (pw, pr))
     out.append(b2)
+    nw = [r for r in records if r['rule'] == RULE and r['kind'] == 'info' and r['construct'] == 'NUM-writer']
+    nr = [r for r in records if r['rule'] == RULE and r['kind'] == 'info' and r['construct'] == 'NUM-reader']
+    if nw and nr:
+        wt = set(filter(None, nw[0]['detail'].split('=', 1)[1].split(',')))
+        rt = set()
+        for r in nr:
+            rt |= set(filter(None, r['detail'].split('=', 1)[1].split(',')))
+        b3 = dict(nw[0])
+        if wt <= rt:
+            b3.update(kind='ok', construct='Timbuk numeric tokens', obligation='FMT', detail='written as %s, read as %s' % (sorted(wt), sorted(rt)))
+        else:
+            b3.update(kind='violation', construct='Timbuk numeric tokens', obligation='FMT',
+                      detail='the serializer writes numbers through %s but the parser reads them as %s: a value outside the common range (the rank -1 of a symbol declared without arity) is written in a form the parser rejects' % (sorted(wt - rt), sorted(rt)))
+        out.append(b3)
     return out
